@@ -381,3 +381,6 @@ fn c15_pattern_p4_m1111_b1() {
 fn c15_pattern_p4_m1111_b2() {
     puncture_pattern::<4, 2, 15, 8, false>();
 }
+
+// a concrete playback test printed by Kani for a failing harness of this module is replayed from here
+include!(concat!(env!("VERIF_KANI_GEN"), "/playback_c15.rs"));
